@@ -299,6 +299,14 @@ def build_cases(ctx, corpus, fin, fout):
             cases.append(conv_case("empty-file", i, o, corpus.special["empty"]))
             cases.append(conv_case("stdin-empty", i, o, "-", stdin=b""))
             cases.append(conv_case("extra-argument", i, o, d0, tag=d0, extra_args=["ignored", "-h"]))
+    # structures without atoms from standard input (empty title): the written text may end in a blank line
+    atomless = {"xyz": b"0\n\n", "rawxyz": b"", "pdb": b"END\n",
+                "discus": b"title\nspcgr   P1\ncell    1.000000, 1.000000, 1.000000, 90.000000, 90.000000, 90.000000\nncell   1, 1, 1, 0\natoms\n"}
+    for i, data in atomless.items():
+        if i in fin:
+            for o in (fout if thorough else ["xyz", "rawxyz", "pdb"]):
+                if o in fout:
+                    cases.append(conv_case("stdin-valid", i, o, "-", stdin=data, tag="atomless " + i))
     cases.append(conv_case("unsupported-record", "discus", "xyz", corpus.special["molecule"]))
     cases.append(conv_case("unsupported-record", "discus", "cif", "-", stdin=corpus.data(corpus.special["molecule"])))
     cases.append(conv_case("unsupported-record", "auto", "xyz", corpus.special["molecule"]))
